@@ -177,7 +177,8 @@ func c03Session(s *c03Scn, enc *json.Encoder) verdict {
 		}
 
 		if err != nil {
-			v.OK, v.Sig, v.Detail = false, "TOOL", fmt.Sprintf("the earlier session failed: %v", err)
+			// the earlier session is a session like any other: its open and its one request are in order
+			fail(&v, "C03:"+s.Prev+":earlier-session:error", "the earlier session (peer offers only %s; open, one get): %v", s.Prev, err)
 
 			return v
 		}
